@@ -317,11 +317,19 @@ func (g *gcase) step() {
 		d := g.id()
 		g.emit("%s %d%s", hx.Pick(r, []string{"sdecj", "sdecy"}), d, ps)
 		g.newS(d, sh)
-	case c < 99:
+	case c < 98:
 		g.emit("sall %d %d", g.srcS(), g.lim())
+	case c < 99:
+		g.vrt()
 	default:
 		g.emit("stbf %d", g.srcS())
 	}
+}
+
+// codec round trip of a fresh map with non-scalar values (slices / struct with omitempty / nested map)
+func (g *gcase) vrt() {
+	ps, _, _ := g.pairs(hx.Pick(g.r, []int{0, 1, 2, 3, 4, 5}), false)
+	g.emit("vrt %s %s%s", hx.Pick(g.r, []string{"j", "y"}), hx.Pick(g.r, []string{"s", "o", "m"}), ps)
 }
 
 // preludes: fixed shapes that every run must contain
@@ -412,6 +420,12 @@ func (g *gcase) prelude(kind int) {
 				g.emit("%s %d %d", c, d, s)
 				g.shM[d] = cpS(g.shM[s])
 				g.maps = append(g.maps, d)
+			}
+		}
+		for _, vt := range []string{"s", "o", "m"} {
+			for _, c := range []string{"j", "y"} {
+				ps, _, _ := g.pairs(4, true)
+				g.emit("vrt %s %s%s", c, vt, ps)
 			}
 		}
 		for _, c := range []string{"sdecj", "sdecy", "sjson", "syaml"} {
